@@ -2,6 +2,7 @@
 C11 — recorded market-data histories are complete, aligned and faithful.
 Property theorems only.
 -/
+import Bourse.Lemmas.SimHistory
 import Bourse.Model.Env
 import Bourse.Lemmas.EnvInv
 import Bourse.Props.C08
@@ -291,6 +292,92 @@ example :
                                 .submit 0 .bid 1 3 (some 12), .step]
     ((MEnv.runOps s0 ops).1.records.map (·.bidVols)) = [[7, 7]] ∧ (stepSnaps s0 ops).length = 2 ∧
     ((stepSnaps s0 ops).map fun sn => sn.map (·.askVol)) = [[7], [6]] := by decide
+
+/-! ### Whole simulations of the built-in agents: `k` steps, `k` entries -/
+
+theorem runOps_subs_keeps (ops : List MEnv.EOp) (s : MEnv × Xoro) (hsub : ∀ op ∈ ops, Props.C10.IsSubmission op) :
+    (MEnv.runOps s ops).1.fault = s.1.fault ∧ (MEnv.runOps s ops).1.records = s.1.records ∧
+    (MEnv.runOps s ops).1.nLevels = s.1.nLevels := by
+  induction ops generalizing s with
+  | nil => exact ⟨rfl, rfl, rfl⟩
+  | cons op rest ih =>
+    simp only [MEnv.runOps]
+    have h1 : (s.1.apply s.2 op).1.1.fault = s.1.fault ∧ (s.1.apply s.2 op).1.1.records = s.1.records ∧
+        (s.1.apply s.2 op).1.1.nLevels = s.1.nLevels := by
+      have := hsub op List.mem_cons_self
+      cases op with
+      | submit a sd vol tr p => simp only [MEnv.apply, MEnv.placeOrder]; split <;> exact ⟨rfl, rfl, rfl⟩
+      | qcancel a id => exact ⟨rfl, rfl, rfl⟩
+      | qmodify a id p v => exact ⟨rfl, rfl, rfl⟩
+      | step => exact absurd this (by simp [Props.C10.IsSubmission])
+      | trading on => exact absurd this (by simp [Props.C10.IsSubmission])
+    obtain ⟨r1, r2, r3⟩ := ih (s.1.apply s.2 op).1 (fun o ho => hsub o (List.mem_cons_of_mem _ ho))
+    exact ⟨r1.trans h1.1, r2.trans h1.2.1, r3.trans h1.2.2⟩
+
+/-- Submissions keep the fault flag, the records and the level count. -/
+theorem subs_keeps {e e' : MEnv} (h : Subs e e') :
+    e'.fault = e.fault ∧ e'.records = e.records ∧ e'.nLevels = e.nLevels := by
+  obtain ⟨ops, hs, hr⟩ := h
+  have := runOps_subs_keeps ops (e, Xoro.seed 0) hs
+  rw [hr (Xoro.seed 0)] at this
+  exact this
+
+theorem step_fault_sticky (e : MEnv) (g : Xoro) (h : e.fault = true) : (e.step g).1.fault = true := by
+  unfold MEnv.step
+  split
+  · simp [MEnv.stepWith, h]
+  · rfl
+
+/-- A fault (a failed shuffle, a clock overflow) is never cleared by a simulation. -/
+theorem simLoopG_fault_sticky (th : F → F) (n : Nat) (as : SimAgents) (e : MEnv) (g : Xoro) (as' : SimAgents) (e' : MEnv)
+    (g' : Xoro) (h : simLoopG th n as e g = some (as', e', g')) (hf : e.fault = true) : e'.fault = true := by
+  induction n generalizing as e g with
+  | zero =>
+    simp only [simLoopG, Option.some.injEq, Prod.mk.injEq] at h
+    rw [← h.2.1]; exact hf
+  | succ n ih =>
+    simp only [simLoopG] at h
+    split at h
+    · cases h
+    · rename_i a1 e1 g1 hu
+      have h1 := (subs_keeps (SimAgents.updateAll_subs th as e g a1 e1 g1 hu)).1
+      exact ih _ _ _ h (step_fault_sticky e1 g1 (h1.trans hf))
+
+/-- **After `k` steps of ANY simulation of the built-in agents every recorded series has exactly `k`
+more entries**: whatever agents are composed (random, noise, momentum, nested derived sets), for every
+sampler, `tanh`, generator state and step count — if the run ends without a fault, every series of
+every asset that had `k` entries has `k + n` after `n` steps. (Agents only submit: they never touch the
+records; each step appends exactly one entry to every series.) -/
+theorem simulation_records_have_one_entry_per_step (th : F → F) (n : Nat) (as : SimAgents) (e : MEnv) (g : Xoro)
+    (as' : SimAgents) (e' : MEnv) (g' : Xoro) (h : simLoopG th n as e g = some (as', e', g'))
+    (hnf : e'.fault = false) (k : Nat) (hwf : AllWF k e) : AllWF (k + n) e' := by
+  induction n generalizing as e g k with
+  | zero =>
+    simp only [simLoopG, Option.some.injEq, Prod.mk.injEq] at h
+    rw [← h.2.1]; exact hwf
+  | succ n ih =>
+    simp only [simLoopG] at h
+    split at h
+    · cases h
+    · rename_i a1 e1 g1 hu
+      obtain ⟨_, hrec, hlev⟩ := subs_keeps (SimAgents.updateAll_subs th as e g a1 e1 g1 hu)
+      have hwf1 : AllWF k e1 := by
+        intro r hr
+        rw [hrec] at hr
+        rw [hlev]
+        exact hwf r hr
+      have hstep : AllWF (k + 1) (e1.step g1).1 := by
+        unfold MEnv.step
+        split
+        · exact step_allwf e1 _ k hwf1
+        · -- the shuffle failed: the environment is faulted for good, contradicting the fault-free end of the run
+          rename_i hs
+          have hft : (e1.step g1).1.fault = true := by simp [MEnv.step, hs]
+          have := simLoopG_fault_sticky th n _ _ _ _ _ _ h hft
+          rw [hnf] at this; cases this
+      have := ih _ _ _ h (k + 1) hstep
+      rw [show k + (n + 1) = k + 1 + n by omega]
+      exact this
 
 end Bourse.Props.C11
 
